@@ -97,14 +97,16 @@ static void logcb(int sev, const char *m) { (void)sev; (void)m; }
 
 /* ------------------------------------------------------------------ */
 /* reference model (from the header documentation; see notes/bevB.md)   */
-enum { BY_NONE, BY_ENABLE, BY_SETTMO, BY_WRITE, BY_XFER, BY_UNSUSPEND, BY_OTHER };
-static const char *byname[] = { "none", "enable", "set-timeouts", "output-became-pending", "transfer", "unsuspend", "other" };
+enum { BY_NONE, BY_ENABLE, BY_SETTMO, BY_WRITE, BY_XFER, BY_UNSUSPEND, BY_WATERMARK, BY_DISABLE, BY_OTHER };
+static const char *byname[] = { "none", "enable", "set-timeouts", "output-became-pending", "transfer", "unsuspend",
+	"watermark-reevaluated", "disable", "other" };
 static struct {
 	int en[2];
 	int64_t tmo[2];          /* 0 = no timeout */
 	int armed[2];
 	int64_t deadline[2];
 	int by[2];               /* which rule (re)started the running interval */
+	int last[2];             /* last thing that happened to the direction (only feeds failure keys) */
 	size_t wm_high;
 	size_t inlen, outlen;    /* facts about the environment, taken from the real buffers */
 	int susp_bw[2];          /* environment fact (rate-limited variant): direction suspended for bandwidth */
@@ -151,12 +153,12 @@ static void m_consume(int after_loop)
 			m.inlen = e->len_after;
 			MC_COUNT("xfer_read");
 			if (m.armed[R]) MC_COUNT("xfer_read_restarts_interval");
-			m_restart(R, BY_XFER);
+			m_restart(R, BY_XFER); m.last[R] = BY_XFER;
 		} else if (e->kind == L_XFER_W) {
 			m.outlen = e->len_after;
 			MC_COUNT("xfer_write");
 			if (m.armed[W]) MC_COUNT("xfer_write_restarts_interval");
-			m_restart(W, BY_XFER);
+			m_restart(W, BY_XFER); m.last[W] = BY_XFER;
 		} else {
 			short what = e->what;
 			int d;
@@ -172,7 +174,8 @@ static void m_consume(int after_loop)
 				const char *why = !m.en[d] ? "while-disabled" : !m.tmo[d] ? "without-timeout-set" :
 				    m.susp_bw[d] ? "while-suspended-for-bandwidth" :
 				    d == R ? "while-suspended" : "with-empty-output";
-				failk(d, "spurious", why, "timeout fired although the idle timer is not running%.0lld%.0lld", 0, 0);
+				char det[96]; snprintf(det, sizeof det, "%s/after-%s", why, byname[m.last[d]]);
+				failk(d, "spurious", det, "timeout fired although the idle timer is not running%.0lld%.0lld", 0, 0);
 				break;
 			}
 			if (e->t < m.deadline[d]) {
@@ -299,6 +302,7 @@ static uint64_t canon(void)
 		h = mc_hash_u64(h, m.armed[d] ? (uint64_t)(m.deadline[d] - vclock_us) : 0);
 		h = mc_hash_u64(h, m.armed[d] ? (uint64_t)m.by[d] : 0);
 		h = mc_hash_u64(h, (uint64_t)m.susp_bw[d]);
+		h = mc_hash_u64(h, (uint64_t)m.last[d]);
 	}
 	h = mc_hash_u64(h, m.wm_high); h = mc_hash_u64(h, m.inlen); h = mc_hash_u64(h, m.outlen);
 	h = h_bev(h, B);
@@ -342,6 +346,7 @@ static void set_tmo(int r, int w)
 	m.tmo[R] = TMO[r]; m.tmo[W] = TMO[w];
 	/* "setting a timeout for a bufferevent whose timeout is already pending resets its timeout" */
 	m_restart(R, BY_SETTMO); m_restart(W, BY_SETTMO);
+	m.last[R] = m.last[W] = BY_SETTMO;
 }
 
 static void body(void)
@@ -410,13 +415,13 @@ static void body(void)
 			bufferevent_enable(B, d == R ? EV_READ : EV_WRITE);
 			m.en[d] = 1;
 			/* "calling bufferevent_enable ... for a bufferevent whose timeout is already pending resets its timeout" */
-			m_restart(d, BY_ENABLE);
+			m_restart(d, BY_ENABLE); m.last[d] = BY_ENABLE;
 			mc_observe("en%c ", d == R ? 'R' : 'W');
 			break; }
 		case OP_DIS_R: case OP_DIS_W: {
 			int d = op == OP_DIS_R ? R : W;
 			bufferevent_disable(B, d == R ? EV_READ : EV_WRITE);
-			m.en[d] = 0; m_refresh(d, BY_OTHER);
+			m.en[d] = 0; m_refresh(d, BY_OTHER); m.last[d] = BY_DISABLE;
 			mc_observe("dis%c ", d == R ? 'R' : 'W');
 			break; }
 		case OP_WRITE: case OP_WRITE_BIG: {
@@ -424,7 +429,7 @@ static void body(void)
 			if (op == OP_WRITE_BIG && type != T_SOCK) n = 20;
 			bufferevent_write(B, payload, n);
 			m.outlen = evbuffer_get_length(bufferevent_get_output(B));
-			m_refresh(W, BY_WRITE);
+			m_refresh(W, BY_WRITE); m.last[W] = BY_WRITE;
 			mc_observe("w(%zu) ", n);
 			break; }
 		case OP_PEER_WRITE:
@@ -437,12 +442,18 @@ static void body(void)
 			break;
 		case OP_DRAIN: {
 			struct evbuffer *in = bufferevent_get_input(B);
+			size_t had = evbuffer_get_length(in);
 			harness_draining = 1;
 			evbuffer_drain(in, evbuffer_get_length(in));
 			harness_draining = 0;
 			/* an immediate transfer triggered by the drain (pair) is in the log and is applied after this */
 			m.inlen = 0;
-			m_refresh(R, BY_UNSUSPEND);
+			/* With a read high-water mark set, every change of the input length re-evaluates
+			 * the suspension (bufferevent_inbuf_wm_cb) and, when reading is left runnable,
+			 * re-enables it through the same path as bufferevent_enable(): the read interval
+			 * restarts ("calling bufferevent_enable ... resets its timeout").  See notes/bevB.md (a). */
+			if (m.wm_high && had) { m_restart(R, BY_WATERMARK); m.last[R] = BY_WATERMARK; }
+			else m_refresh(R, BY_UNSUSPEND);
 			mc_observe("drain ");
 			break; }
 		case OP_PEER_DRAIN:
@@ -460,7 +471,9 @@ static void body(void)
 		case OP_WM: {
 			size_t hi = mc_choose(2, 0, "wm") ? 0 : 4;
 			bufferevent_setwatermark(B, EV_READ, 0, hi);
-			m.wm_high = hi; m_refresh(R, BY_UNSUSPEND);
+			/* bufferevent_setwatermark(EV_READ) re-evaluates the suspension and re-enables
+			 * reading when it is left runnable: restarts the read interval (notes/bevB.md (a)) */
+			m.wm_high = hi; m_restart(R, BY_WATERMARK); m.last[R] = BY_WATERMARK;
 			mc_observe("wm(%zu) ", hi);
 			break; }
 		case OP_ADV: {
